@@ -167,7 +167,8 @@ impl TermCfg {
         pick(self.bnodes.clone()).prop_map(MT::Bnode).boxed()
     }
     pub fn literal(&self) -> BoxedStrategy<MT> {
-        let l1 = (self.lex.clone(), pick(self.dts.clone())).prop_map(|(l, d)| MT::Lit(l, d));
+        let dt = if self.dts.len() > 3 { prop_oneof![12 => pick(self.dts.clone()), 1 => pick(near_miss_datatypes())].boxed() } else { pick(self.dts.clone()).boxed() };
+        let l1 = (self.lex.clone(), dt).prop_map(|(l, d)| MT::Lit(l, d));
         let l2 = (self.lex.clone(), pick(self.tags.clone())).prop_map(|(l, t)| MT::Lang(l, t));
         prop_oneof![3 => l1, 2 => l2].boxed()
     }
@@ -470,4 +471,34 @@ pub fn bcp47_well_formed(tag: &str) -> bool {
         return privateuse(&subs[i..]);
     }
     true
+}
+
+
+/// Near-misses of the datatypes that serializers and parsers treat specially (xsd:string is implicit,
+/// rdf:langString belongs to tagged literals, rdf:XMLLiteral / rdf:JSON have their own syntax): code that
+/// recognises them loosely (case-insensitively, by suffix, by prefix) changes the datatype on a round trip.
+pub fn near_miss_datatypes() -> Vec<String> {
+    [
+        "http://www.w3.org/2001/XMLSchema#String",
+        "http://www.w3.org/2001/XMLSchema#STRING",
+        "http://www.w3.org/2001/XMLSchema#string2",
+        "http://www.w3.org/2001/XMLSchema#strin",
+        "http://www.w3.org/2001/xmlschema#string",
+        "HTTP://www.w3.org/2001/XMLSchema#string",
+        "http://www.w3.org/2001/XMLSchema/string",
+        "https://www.w3.org/2001/XMLSchema#string",
+        "http://www.w3.org/2001/XMLSchema#normalizedString",
+        "http://example.org/XMLSchema#string",
+        "http://www.w3.org/1999/02/22-rdf-syntax-ns#langstring",
+        "http://www.w3.org/1999/02/22-rdf-syntax-ns#LangString",
+        "http://www.w3.org/1999/02/22-rdf-syntax-ns#xmlliteral",
+        "http://www.w3.org/1999/02/22-rdf-syntax-ns#XMLLiteral2",
+        "http://www.w3.org/1999/02/22-rdf-syntax-ns#json",
+        "http://www.w3.org/2001/XMLSchema#Integer",
+        "http://www.w3.org/2001/XMLSchema#BOOLEAN",
+        "http://www.w3.org/2001/XMLSchema#Double",
+    ]
+    .iter()
+    .map(|s| s.to_string())
+    .collect()
 }
